@@ -13,10 +13,9 @@ open SSVerif.Hist
 #print axioms C03_T2_T3
 #print axioms C03_only_start_markers
 #print axioms wfHistB_iff
-#print axioms SSVerif.C03Frames.C03_frames_add_up
+#print axioms SSVerif.C03Frames.C03_frames_add_up_partial
 #print axioms SSVerif.C03Frames.C03_frames_add_up_full
-#print axioms SSVerif.C03Frames.C03_frames_match_front_end
-#print axioms SSVerif.C03Frames.C03_last_segment_within_M
+#print axioms SSVerif.C03Frames.C03_frames_match_front_end_partial
+#print axioms SSVerif.C03Frames.C03_last_segment_within_M_partial
 #print axioms SSVerif.C03Frames.search_frame_counts_steps
-#print axioms SSVerif.C03Frames.returns_sum
-#print axioms SSVerif.C03Frames.C03_frames_equal_frameCount
+#print axioms SSVerif.C03Frames.C03_frames_equal_frameCount_partial
